@@ -4,6 +4,7 @@ import (
 	"fmt"
 	"go/ast"
 	"go/constant"
+	"go/types"
 	"sort"
 	"strings"
 	"unicode"
@@ -310,6 +311,66 @@ var _ = core.ModPath
 // number of logger frames above the user's call.
 func checkCallerFrames(p *core.Prog, r *core.Report, rule string) {
 	cm := staticCalls(p)
+	// sibling constructors agree: whatever the root constructor of Logger computes and stores (a cached "add source"
+	// flag, say), every other place that builds a Logger stores too — or copies the whole struct
+	if lg := p.Named("logger", "Logger"); lg != nil {
+		type site struct {
+			fn     *ssa.Function
+			at     ssa.Instruction
+			fields map[string]bool
+			copied bool
+		}
+		var sites []site
+		for _, fn := range p.PkgFuncs("logger") {
+			sx.Instrs(fn, func(in ssa.Instruction) {
+				al, ok := in.(*ssa.Alloc)
+				if !ok || !types.Identical(ptrTo(al.Type()), lg) || al.Referrers() == nil {
+					return
+				}
+				st := site{fn: fn, at: in, fields: map[string]bool{}}
+				for _, u := range *al.Referrers() {
+					switch x := u.(type) {
+					case *ssa.FieldAddr:
+						if x.Referrers() == nil {
+							continue
+						}
+						for _, uu := range *x.Referrers() {
+							if s2, ok := uu.(*ssa.Store); ok && s2.Addr == ssa.Value(x) {
+								st.fields[sx.FieldOf(x).Name()] = true
+							}
+						}
+					case *ssa.Store:
+						if x.Addr == ssa.Value(al) {
+							st.copied = true
+						}
+					}
+				}
+				sites = append(sites, st)
+			})
+		}
+		var root *site
+		for i := range sites {
+			f := sites[i].fn
+			if f.Signature.Recv() == nil && f.Parent() == nil && (root == nil || len(sites[i].fields) > len(root.fields)) {
+				root = &sites[i]
+			}
+		}
+		if root != nil {
+			var bad []string
+			for _, st := range sites {
+				if st.copied || st.at == root.at {
+					continue
+				}
+				for f := range root.fields {
+					if !st.fields[f] {
+						bad = append(bad, fmt.Sprintf("the Logger built in %s at %s leaves field %s at its zero value, %s sets it", fnName(st.fn), p.Pos(st.at.Pos()), f, fnName(root.fn)))
+					}
+				}
+			}
+			sort.Strings(bad)
+			r.Check(len(bad) == 0, rule, "every Logger the package builds carries what the root constructor sets", p.FuncPos(root.fn), fmt.Sprintf("%d construction site(s) agree with %s on the fields they set", len(sites), fnName(root.fn)), strings.Join(uniq(bad), "; ")+": loggers derived with With/WithGroup behave differently from the logger they were derived from (e.g. lose the source location)")
+		}
+	}
 	for _, fn := range p.PkgFuncs("logger") {
 		sx.Instrs(fn, func(in ssa.Instruction) {
 			c, ok := in.(*ssa.Call)
